@@ -380,7 +380,14 @@ fn check_pipeline(ctx: &Ctx, case: &Case, cfg_name: &str, cfg: &[&str], args: &[
         if let Outcome::Ok(v) = orig.run(&format!("f({}, {})", a, b)) {
             // only data results can be compared through JSON
             if !v.contains("fn(") && !v.contains("builtin:") && !v.contains("NaN") && !v.contains("inf") {
-                expected.push(v);
+                // the expectation takes the same JSON route as the observation (record key order is not
+                // part of the property, and the harness's JSON maps are sorted)
+                let name = format!("pexp{}", expected.len());
+                if !orig.run(&format!("output {} = f({}, {})", name, a, b)).is_ok() {
+                    continue;
+                }
+                let Some(sv) = orig.outputs.iter().find(|(n, _)| **n == name).map(|(_, v)| v.clone()) else { continue };
+                expected.push(canon_sv(&SerializableValue::from_json(&sv.to_json())));
                 ok_calls.push(call.clone());
             }
         }
